@@ -7,14 +7,17 @@ Property theorems only (helper lemmas: `MJ/Proofs/Undef.lean`).
 * the helper methods of `UndefinedBehavior` are interpreted from rows regenerated from
   `utils.rs` on every run (`MJ.Gen.undef…`), so `helpers_matrix` / `helper_mono` are re-proved
   against what the source says now;
+* `comp_mono` / `comp_agree` / `comp_only_adds_undefined_errors`: any computation that consults
+  the mode only by asking the helpers is monotone, mode-independent in its result, and a stricter
+  mode can only add `UndefinedError`s;
 * `mono` lifts monotonicity of single steps to runs of an abstract mode-indexed machine whose
-  next step is chosen by the state alone (straight-line code, jumps and loops);
-* `step_mono` shows that every instruction of the hand model of `eval_impl` (`MJ.Undef.step`)
-  is such a step, `mono_vm` instantiates `mono`;
+  next step is chosen by the state alone (straight-line code, jumps, loops, nested calls);
+* `step_mono`, `mono_vm`, `mono_programs`: the VM model (`MJ.Undef.stepC`) is such a machine, for
+  every choice of the mode-independent operations `Ops` it leaves abstract;
+* `arg_conversion_mono`, `arg_conversion_table`, `builtin_mono_of_sig`,
+  `pure_builtin_independent_after_conversion`: the argument conversion layer and every builtin
+  called through its extracted signature;
 * `site_matrix` is the documented per-site table for the modelled VM sites.
-
-Builtin filters/tests other than the few modelled in `filterGuard`/`testGuard` are **not** covered
-by these theorems: for them monotonicity is validated by the differential stream only.
 -/
 namespace MJ.C12
 open MJ.Undef
@@ -46,7 +49,8 @@ def HelpersMatrix : Prop :=
 
 def isErr {α : Type} (r : Except Err α) : Prop := r = .error .undefinedError
 
-/-- **site_matrix**.  For an undefined operand `u` (a missing variable), any state, any mode:
+/-- **site_matrix**.  For an undefined operand `u` (a missing variable), any state, any mode, any
+    program and any choice of the abstract operations:
   1. printing fails under Strict and SemiStrict only (default or custom formatter), and otherwise
      the undefined is written by `write_escaped` resp. handed to the custom formatter (`emitVia`);
   2. iterating fails under Strict and SemiStrict only, and otherwise is an empty loop;
@@ -58,46 +62,47 @@ def isErr {α : Type} (r : Except Err α) : Prop := r = .error .undefinedError
   6. a *silent* undefined (`x if false`) prints (it reaches the formatter in every mode), iterates
      and truth-tests without error in every mode. -/
 def SiteMatrix : Prop :=
+  ∀ (ops : Ops) (P : Prog),
   (∀ m (s : St) r, s.stack = .undef :: r →
-      (isErr (step m .emit s) ↔ (m = .strict ∨ m = .semiStrict)) ∧
-      (¬ (m = .strict ∨ m = .semiStrict) → step m .emit s = .ok (s.emitVia r .undef))) ∧
+      (isErr (step ops P m .emit s) ↔ (m = .strict ∨ m = .semiStrict)) ∧
+      (¬ (m = .strict ∨ m = .semiStrict) → step ops P m .emit s = .ok (s.emitVia r .undef))) ∧
   (∀ m (s : St) r, s.stack = .undef :: r →
-      (isErr (step m .pushLoop s) ↔ (m = .strict ∨ m = .semiStrict)) ∧
+      (isErr (step ops P m (.pushLoop 1) s) ↔ (m = .strict ∨ m = .semiStrict)) ∧
       (¬ (m = .strict ∨ m = .semiStrict) →
-        step m .pushLoop s = .ok { s with stack := r, frames := { loop := some ([], 0) } :: s.frames }.next)) ∧
+        step ops P m (.pushLoop 1) s = .ok { s with stack := r, frames := { loop := some { items := [] } } :: s.frames }.next)) ∧
   (∀ m (s : St) r t, s.stack = .undef :: r →
-      (isErr (step m (.jumpIfFalse t) s) ↔ m = .strict) ∧
-      (isErr (step m .not s) ↔ m = .strict) ∧
-      (isErr (step m (.jumpIfFalseOrPop t) s) ↔ m = .strict) ∧
-      (isErr (step m (.jumpIfTrueOrPop t) s) ↔ m = .strict) ∧
-      (m ≠ .strict → step m (.jumpIfFalse t) s = .ok { s with stack := r, pc := t } ∧
-                     step m .not s = .ok { s with stack := .bool true :: r }.next)) ∧
+      (isErr (step ops P m (.jumpIfFalse t) s) ↔ m = .strict) ∧
+      (isErr (step ops P m .not s) ↔ m = .strict) ∧
+      (isErr (step ops P m (.jumpIfFalseOrPop t) s) ↔ m = .strict) ∧
+      (isErr (step ops P m (.jumpIfTrueOrPop t) s) ↔ m = .strict) ∧
+      (m ≠ .strict → step ops P m (.jumpIfFalse t) s = .ok { s with stack := r, pc := t } ∧
+                     step ops P m .not s = .ok { s with stack := .bool true :: r }.next)) ∧
   (∀ m (s : St) r u n, s.stack = u :: r → u.isUndefined = true →
-      (isErr (step m (.getAttr n) s) ↔ m ≠ .chainable) ∧
-      (m = .chainable → step m (.getAttr n) s = .ok { s with stack := .undef :: r }.next)) ∧
-  (∀ m (s : St) r u k, s.stack = k :: u :: r → u.isUndefined = true →
-      (isErr (step m .getItem s) ↔ m ≠ .chainable) ∧
-      (m = .chainable → step m .getItem s = .ok { s with stack := .undef :: r }.next)) ∧
+      (isErr (step ops P m (.getAttr n) s) ↔ m ≠ .chainable) ∧
+      (m = .chainable → step ops P m (.getAttr n) s = .ok { s with stack := .undef :: r }.next)) ∧
+  (∀ m (s : St) r u k, s.stack = k :: u :: r → u.isUndefined = true → k.isOpaque = false →
+      (isErr (step ops P m .getItem s) ↔ m ≠ .chainable) ∧
+      (m = .chainable → step ops P m .getItem s = .ok { s with stack := .undef :: r }.next)) ∧
   (∀ m (s : St) r kvs n, s.stack = .map kvs :: r → V.mapGet kvs n = none →
-      step m (.getAttr n) s = .ok { s with stack := .undef :: r }.next) ∧
-  (∀ m (s : St) r v, s.stack = v :: r →
-      step m (.performTest "defined" 1) s = .ok { s with stack := .bool (!v.isUndefined) :: r }.next ∧
-      step m (.performTest "undefined" 1) s = .ok { s with stack := .bool v.isUndefined :: r }.next ∧
-      step m (.applyFilter "default" 1) s = .ok { s with stack := (if v.isUndefined then .str "" else v) :: r }.next) ∧
-  (∀ m (s : St) r v o, s.stack = o :: v :: r →
-      step m (.applyFilter "default" 2) s = .ok { s with stack := (if v.isUndefined then o else v) :: r }.next) ∧
+      step ops P m (.getAttr n) s = .ok { s with stack := .undef :: r }.next) ∧
+  (∀ m (s : St) r v, s.stack = v :: r → v.isOpaque = false →
+      step ops P m (.performTest "defined" 1) s = .ok { s with stack := .bool (!v.isUndefined) :: r }.next ∧
+      step ops P m (.performTest "undefined" 1) s = .ok { s with stack := .bool v.isUndefined :: r }.next ∧
+      step ops P m (.applyFilter "default" 1) s = .ok { s with stack := (if v.isUndefined then .str "" else v) :: r }.next) ∧
+  (∀ m (s : St) r v o, s.stack = o :: v :: r → v.isOpaque = false → o.isOpaque = false →
+      step ops P m (.applyFilter "default" 2) s = .ok { s with stack := (if v.isUndefined then o else v) :: r }.next) ∧
   (∀ m (s : St) r t, s.stack = .silent :: r →
-      step m .emit s = .ok (s.emitVia r .silent) ∧
-      step m .pushLoop s = .ok { s with stack := r, frames := { loop := some ([], 0) } :: s.frames }.next ∧
-      step m (.jumpIfFalse t) s = .ok { s with stack := r, pc := t })
+      step ops P m .emit s = .ok (s.emitVia r .silent) ∧
+      step ops P m (.pushLoop 1) s = .ok { s with stack := r, frames := { loop := some { items := [] } } :: s.frames }.next ∧
+      step ops P m (.jumpIfFalse t) s = .ok { s with stack := r, pc := t })
 
-/-- **C12 on the model** (full strength): (1) any run of the VM model — any instruction sequence,
-    any state, any number of steps — that succeeds under a mode ends in the identical final
-    state, hence with the identical output, under every weaker mode; (2) the helpers are the
-    documented table; (3) the per-site matrix. -/
+/-- **C12 on the model** (full strength): (1) any run of the VM model — any instruction lists, any
+    state, any number of steps, any choice of the abstract mode-independent operations — that
+    succeeds under a mode ends in the identical final state, hence with the identical output,
+    under every weaker mode; (2) the helpers are the documented table; (3) the per-site matrix. -/
 def C12_full : Prop :=
-  (∀ (code : Array Instr) (m m' : Mode), m' ≤ m → ∀ (fuel : Nat) (s r : St),
-      runVm code m fuel s = .ok r → runVm code m' fuel s = .ok r) ∧
+  (∀ (ops : Ops) (P : Prog) (m m' : Mode), m' ≤ m → ∀ (fuel : Nat) (s r : St),
+      runVm ops P m fuel s = .ok r → runVm ops P m' fuel s = .ok r) ∧
   HelpersMatrix ∧ SiteMatrix
 
 /-! ## the helpers are the documented table -/
@@ -121,6 +126,102 @@ theorem helper_mono :
 
 example : (Mode.lenient ≤ Mode.strict) ∧ assertIterable .strict .silent = .ok () ∧
     assertIterable .strict .undef ≠ .ok () ∧ assertIterable .lenient .undef = .ok () := by decide
+
+/-! ## computations that consult the mode only by asking -/
+
+/-- **comp_mono**: a computation whose only access to the mode is asking the helpers succeeds,
+    with the same result, under every mode weaker than one under which it succeeds. -/
+theorem comp_mono {α : Type} (c : Comp α) (m m' : Mode) (h : m' ≤ m) (a : α) :
+    c.run m = .ok a → c.run m' = .ok a := Comp.run_mono c m m' h a
+
+/-- **comp_agree**: whatever two modes it succeeds under, the result is the same. -/
+theorem comp_agree {α : Type} (c : Comp α) (m m' : Mode) (a a' : α) :
+    c.run m = .ok a → c.run m' = .ok a' → a = a' := Comp.run_agree c m m' a a'
+
+/-- **comp_only_adds_undefined_errors**: if it fails under one mode and succeeds under another,
+    the failure is the `UndefinedError` of one of its questions as that question reports it
+    (`AskErr`: a helper's `UndefinedError`, possibly rewritten by a `.map_err(..)` around the helper
+    call or wrapped as `BadInclude`); it is exactly `UndefinedError` when no question rewrites. -/
+theorem comp_only_adds_undefined_errors {α : Type} (c : Comp α) (m m' : Mode) (e : Err) (a : α) :
+    c.run m = .error e → c.run m' = .ok a → c.AskErr e ∧ (c.PlainAsks → e = .undefinedError) := fun h h' =>
+  ⟨Comp.run_err_of_ok c m m' e a h h', fun hp => Comp.askErr_of_plain c hp e (Comp.run_err_of_ok c m m' e a h h')⟩
+
+/-- a computation that really depends on the mode: truth-testing an undefined -/
+example : (Comp.chk (.isTrue .undef)).run .strict = .error .undefinedError ∧
+    (Comp.chk (.isTrue .undef)).run .semiStrict = .ok () := by decide
+
+/-! ## the argument conversion layer and the builtins -/
+
+/-- **arg_conversion_mono**: converting the arguments of a call (`FunctionArgs::from_values`,
+    interpreted from the extracted `ArgType` table) only adds errors with strictness, for every
+    signature, every argument list and every choice of the mode-independent conversions. -/
+theorem arg_conversion_mono (ops : Ops) (sig : List ArgTy) (args : List V) (m m' : Mode) (h : m' ≤ m) :
+    (convCall ops sig args).run m = .ok () → (convCall ops sig args).run m' = .ok () :=
+  Comp.run_mono _ m m' h ()
+
+/-- **arg_conversion_table**: what the extracted table says, argument type by argument type:
+    `String`, `Cow<str>` and `StringInput` ask `assert_value_not_undefined`; `Value`, `&Value`,
+    `&str`, the integers, `bool`, `Kwargs` never consult the mode; `Option<T>` drops the state
+    (so `Option<String>` never asks); `Rest<T>` forwards it to every element; the elements of a
+    `Vec<T>` are converted with the owned conversion, which checks for `String` only. -/
+theorem arg_conversion_table (v : V) :
+    (∀ t ∈ ["String", "Cow<str>", "StringInput"], (ArgTy.base t).asks v = [.assertNotUndef v.kind]) ∧
+    (∀ t ∈ ["Value", "&Value", "&str", "i64", "usize", "isize", "u32", "bool", "f64", "Kwargs", "ValueOrKwargs"],
+        (ArgTy.base t).asks v = []) ∧
+    (∀ t, (ArgTy.opt t).asks v = []) ∧
+    (ArgTy.rest (.base "String")).asks v = [.assertNotUndef v.kind] ∧
+    (ArgTy.rest (.base "Value")).asks v = [] ∧
+    (∀ xs, (ArgTy.vec (.base "String")).asks (.seq xs) = xs.flatMap (fun x => [.assertNotUndef x.kind])) ∧
+    (∀ xs, (ArgTy.vec (.base "Cow<str>")).asks (.seq xs) = xs.flatMap (fun _ => [])) := by
+  have hc1 : ∀ t ∈ ["String", "Cow<str>", "StringInput"], ((argTypeCode t).getD (0, 0)).1 = 1 := by decide
+  have hc0 : ∀ t ∈ ["Value", "&Value", "&str", "i64", "usize", "isize", "u32", "bool", "f64", "Kwargs", "ValueOrKwargs"],
+      ((argTypeCode t).getD (0, 0)).1 = 0 := by decide
+  have hw : wrapperForwards "Option<T>" = false ∧ wrapperForwards "Rest<T>" = true ∧ wrapperForwards "Vec<T>" = true := by decide
+  have ho : ((argTypeCode "String").getD (0, 0)).2 = 1 ∧ ((argTypeCode "Cow<str>").getD (0, 0)).2 = 0 := by decide
+  refine ⟨?_, ?_, ?_, ?_, ?_, ?_, ?_⟩
+  · intro t ht; simp [ArgTy.asks, hc1 t ht]
+  · intro t ht; simp [ArgTy.asks, hc0 t ht]
+  · intro t; simp [ArgTy.asks, hw.1]
+  · simp [ArgTy.asks, hw.2.1, hc1 "String" (by simp)]
+  · simp [ArgTy.asks, hw.2.1, hc0 "Value" (by simp)]
+  · intro xs
+    have hf : (ArgTy.base "String").asksOwned = fun x => [HQ.assertNotUndef x.kind] := by
+      funext x; simp [ArgTy.asksOwned, ho.1]
+    simp [ArgTy.asks, hw.2.2, hf]
+  · intro xs
+    have hf : (ArgTy.base "Cow<str>").asksOwned = fun _ => [] := by
+      funext x; simp [ArgTy.asksOwned, ho.2]
+    simp [ArgTy.asks, hw.2.2, hf]
+
+/-- **builtin_mono_of_sig**: a call of a registered builtin — conversion layer from its extracted
+    signature, then its body, which consults the mode at most by asking the helpers — only adds
+    errors with strictness; and two modes under which it succeeds return the same value. -/
+theorem builtin_mono_of_sig (ops : Ops) (kind name : String) (args : List V) (c : Comp V)
+    (hc : callBuiltin ops kind name args = some c) (m m' : Mode) :
+    (m' ≤ m → ∀ y, c.run m = .ok y → c.run m' = .ok y) ∧
+    (∀ y y', c.run m = .ok y → c.run m' = .ok y' → y = y') ∧
+    (∀ e y, c.run m = .error e → c.run m' = .ok y → c.AskErr e) := by
+  have _ := hc
+  exact ⟨fun h y => Comp.run_mono c m m' h y, fun y y' => Comp.run_agree c m m' y y',
+         fun e y => Comp.run_err_of_ok c m m' e y⟩
+
+/-- **pure_builtin_independent_after_conversion**: for a builtin whose source never reaches the
+    mode (its body is a function of the arguments), all modes under which the argument conversion
+    passes give the same outcome — the same value or the same error. -/
+theorem pure_builtin_independent_after_conversion (ops : Ops) (sig : List ArgTy) (args : List V)
+    (body : List V → Except Err V) (m m' : Mode)
+    (hm : (convCall ops sig args).run m = .ok ()) (hm' : (convCall ops sig args).run m' = .ok ()) :
+    (Comp.bind (convCall ops sig args) (fun _ => Comp.ofExcept (body args))).run m =
+    (Comp.bind (convCall ops sig args) (fun _ => Comp.ofExcept (body args))).run m' := by
+  rw [Comp.run_bind, Comp.run_bind, hm, hm']
+  simp [Comp.run_ofExcept]
+
+/-- `{{ u|upper }}`: the `StringInput` conversion of the extracted signature fails under Strict and
+    SemiStrict, passes under Lenient and Chainable; `{{ l|join(u) }}` (`Option<StringInput>`) never asks -/
+example :
+    (convCall Ops.convOnly [.base "StringInput"] [.undef]).run .semiStrict = .error .undefinedError ∧
+    (convCall Ops.convOnly [.base "StringInput"] [.undef]).run .lenient = .ok () ∧
+    (convCall Ops.convOnly [.base "&Value", .opt (.base "StringInput")] [.seq [], .undef]).run .strict = .ok () := by decide
 
 /-! ## lifting: a run that succeeds under `m` is the same run under every weaker `m'` -/
 
@@ -151,88 +252,142 @@ theorem mono {σ ε : Type} (M : Machine σ ε)
         rw [hstep s f hn m m' s s' h hf]
         exact ih s' hr
 
-/-- the hypothesis of `mono` is satisfiable by a machine that really consults the mode: a
-    one-instruction program printing an undefined succeeds under Lenient and fails under Strict -/
-example : runVm #[.emit] .lenient 5 { stack := [.undef] } = .ok { pc := 1, stack := [], outs := [[""]] } ∧
-    runVm #[.emit] .strict 5 { stack := [.undef] } = .error .undefinedError ∧
-    -- through a custom formatter that shows undefined as `U`: the silent undefined reaches it under Strict too
-    runVm #[.emit] .strict 5 { stack := [.silent], formatter := 2 } = .ok { pc := 1, stack := [], outs := [["U"]], formatter := 2, fmtCalls := 1 } := by
-  refine ⟨?_, ?_, ?_⟩ <;> rfl
-
-/-- **step_mono**: every modelled VM instruction satisfies `StepMono` -/
-theorem step_mono (i : Instr) : StepMono (fun m s => step m i s) := by
+/-- **step_mono**: every instruction of the VM model satisfies `StepMono`, whatever the abstract
+    operations and the program -/
+theorem step_mono (ops : Ops) (P : Prog) (i : Instr) : StepMono (fun m s => step ops P m i s) := by
   intro m m' s s' h hs
-  simp only [step] at hs ⊢
-  split at hs
-  · exact stepEmit_mono m m' s s' h hs
-  · cases hg : modeGuard m i s with
-    | error e => simp [hg] at hs
-    | ok u =>
-      cases u
-      have hg' : modeGuard m' i s = .ok () := modeGuard_mono i s m m' h hg
-      rw [hg']
-      simpa [hg] using hs
+  exact Comp.run_mono _ m m' h s' hs
 
-example : step .strict .not { stack := [.undef] } = .error .undefinedError ∧
-    step .semiStrict .not { stack := [.undef] } = .ok { pc := 1, stack := [.bool true] } := by
-  constructor <;> rfl
+example : (step Ops.exec (Prog.single #[]) .strict .not { stack := [.undef] }).map (·.stack.length) = .error .undefinedError ∧
+    (step Ops.exec (Prog.single #[]) .semiStrict .not { stack := [.undef] }).map (·.stack.length) = .ok 1 := by
+  decide
 
-/-- **mono_vm**: a run of the VM model on *any* instruction sequence and state that succeeds
-    under `m` ends in the identical state (same output chunks, stack, frames) under every weaker
-    `m'`.  In particular the rendered output is identical. -/
-theorem mono_vm (code : Array Instr) (m m' : Mode) (h : m' ≤ m) (fuel : Nat) (s r : St) :
-    runVm code m fuel s = .ok r → runVm code m' fuel s = .ok r := by
-  apply mono (vm code) _ m m' h
+/-- **mono_vm**: a run of the VM model on *any* instruction lists and state that succeeds under
+    `m` ends in the identical state (same output chunks, stack, frames, closures, pending calls)
+    under every weaker `m'`.  In particular the rendered output is identical. -/
+theorem mono_vm (ops : Ops) (P : Prog) (m m' : Mode) (h : m' ≤ m) (fuel : Nat) (s r : St) :
+    runVm ops P m fuel s = .ok r → runVm ops P m' fuel s = .ok r := by
+  apply mono (vm ops P) _ m m' h
   intro s f hf
   simp only [vm] at hf
-  split at hf
-  · cases hf; exact step_mono _
-  · cases hf
+  cases hn : nextC ops P s with
+  | none => simp [hn] at hf
+  | some c =>
+    simp only [hn, Option.map_some, Option.some.injEq] at hf
+    subst hf
+    intro m m' _ s' h hs
+    exact Comp.run_mono c m m' h s' hs
 
-theorem mono_vm_output (code : Array Instr) (m m' : Mode) (h : m' ≤ m) (fuel : Nat) (s r : St)
-    (hr : runVm code m fuel s = .ok r) :
-    (runVm code m' fuel s).map St.output = .ok r.output := by
-  rw [mono_vm code m m' h fuel s r hr]; rfl
+theorem mono_vm_output (ops : Ops) (P : Prog) (m m' : Mode) (h : m' ≤ m) (fuel : Nat) (s r : St)
+    (hr : runVm ops P m fuel s = .ok r) :
+    (runVm ops P m' fuel s).map St.observed = .ok r.observed := by
+  rw [mono_vm ops P m m' h fuel s r hr]; rfl
 
 /-- `{{ u }}{% if u %}x{% endif %}` as compiled: fine under Lenient, an error under SemiStrict -/
 example :
     let code : Array Instr := #[.lookup "u", .emit, .lookup "u", .jumpIfFalse 5, .emitRaw "x"]
-    (runVm code .lenient 10 {}).map St.output = .ok "" ∧
-    (runVm code .semiStrict 10 {}).map St.output = .error .undefinedError := by
+    (runVm Ops.exec (Prog.single code) .lenient 10 {}).map St.output = .ok "" ∧
+    (runVm Ops.exec (Prog.single code) .semiStrict 10 {}).map St.output = .error .undefinedError := by
   constructor <;> decide
+
+/-- every instruction of an in-fragment program has a semantics in the model: none is one of the
+    instructions the serialiser marks as outside the model, loops are not recursive, and every
+    filter / test is a registered builtin with a signature over known argument types (so
+    `callBuiltin` is defined for it) -/
+theorem inFragment_modelled (P : Prog) (hP : P.inFragment = true) (c : Array Instr) (hc : c ∈ P.codes)
+    (i : Instr) (hi : i ∈ c) :
+    (∀ n, i ≠ .unsupported n) ∧
+    (∀ n k, i = .applyFilter n k → sigKnown "filter" n = true) ∧
+    (∀ n k, i = .performTest n k → sigKnown "test" n = true) := by
+  have h2 : i.inFragment = true := by
+    have h1 := (List.all_eq_true.mp hP) c (by simpa using hc)
+    exact (List.all_eq_true.mp h1) i (by simpa using hi)
+  refine ⟨?_, ?_, ?_⟩
+  · intro n hn; subst hn; simp [Instr.inFragment] at h2
+  · intro n k hn; subst hn; simpa [Instr.inFragment] using h2
+  · intro n k hn; subst hn; simpa [Instr.inFragment] using h2
+
+/-- **mono_programs**: for every real compiled program (the instruction lists of the template and
+    of the templates it includes) that the decidable check `Prog.inFragment` accepts — every
+    instruction has a semantics in the model — and for every choice of the mode-independent
+    operations the model leaves abstract: a render that succeeds under `m` gives the identical
+    observed output (text, and number of formatter invocations) under every weaker `m'`; two
+    modes under which it succeeds agree. -/
+theorem mono_programs (ops : Ops) (P : Prog) (_hP : P.inFragment = true) (m m' : Mode) (h : m' ≤ m)
+    (fuel : Nat) (s r : St) (hr : runVm ops P m fuel s = .ok r) :
+    runVm ops P m' fuel s = .ok r ∧ (runVm ops P m' fuel s).map St.observed = .ok r.observed :=
+  ⟨mono_vm ops P m m' h fuel s r hr, mono_vm_output ops P m m' h fuel s r hr⟩
+
+/-- an in-fragment program with a macro called with a keyword argument and a builtin filter:
+    `{% macro m(a) %}[{{ a }}]{% endmacro %}{{ m(a=u) }}{{ u|default(1) }}` as compiled; the macro body runs
+    inside the machine, so printing its undefined parameter fails under SemiStrict -/
+example :
+    let code : Array Instr := #[.jump 7, .storeLocal "a", .emitRaw "[", .lookup "a", .emit, .emitRaw "]", .ret,
+      .getClosure, .loadConst (.seq [.str "a"]), .buildMacro "m" 1 0, .storeLocal "m",
+      .loadConst (.str "a"), .lookup "u", .buildKwargs 1, .callFunction "m" 1, .emit,
+      .lookup "u", .loadConst (.int 1), .applyFilter "default" 2, .emit]
+    (Prog.single code).inFragment = true ∧
+    (runVm Ops.exec (Prog.single code) .lenient 50 {}).map St.output = .ok "[]1" ∧
+    (runVm Ops.exec (Prog.single code) .semiStrict 50 {}).map St.output = .error .undefinedError := by
+  refine ⟨?_, ?_, ?_⟩ <;> decide
 
 /-! ## the documented site matrix on the modelled VM sites -/
 
 theorem site_matrix : SiteMatrix := by
+  intro ops P
+  have hd : sigOf "test" "defined" = some ([.base "&Value"], []) := by decide
+  have hu : sigOf "test" "undefined" = some ([.base "&Value"], []) := by decide
+  have hf : sigOf "filter" "default" = some ([.base "&Value", .rest (.base "Value")], ["undefined_behavior"]) := by decide
+  have hp1 : namedSig [.base "&Value"] = [("&Value", .base "&Value")] := by decide
+  have hp2 : namedSig [.base "&Value", .rest (.base "Value")] = [("&Value", .base "&Value"), ("Rest<Value>", .rest (.base "Value"))] := by decide
+  have hc : ((argTypeCode "&Value").getD (0, 0)).1 = 0 ∧ ((argTypeCode "Value").getD (0, 0)).1 = 0 := by decide
+  have hk : ∀ v : V, v.isOpaque = false → isKwargsVal v = false := by
+    intro v hv; cases v <;> simp [V.isOpaque, isKwargsVal] at hv ⊢
   refine ⟨?_, ?_, ?_, ?_, ?_, ?_, ?_, ?_, ?_⟩
   · intro m s r hs
     by_cases hc : s.formatter = 0 <;> cases m <;>
-      simp [step, stepEmit, hs, hc, isErr, emitChk, envFormat, V.kind, lookupRow, Mode.code,
-        UK.code, MJ.Gen.undefVmEmitFails, MJ.Gen.undefEnvFormat]
+      simp [step, stepC, inspects, V.isOpaque, emitC, Comp.run, HQ.run, unitOk, hs, hc, isErr, emitChk, envFormat, V.kind,
+        lookupRow, Mode.code, UK.code, MJ.Gen.undefVmEmitFails, MJ.Gen.undefEnvFormat]
   · intro m s r hs
-    cases m <;> simp [step, modeGuard, exec, hs, isErr, tryIterChk, assertIterable, check, V.kind, V.iterItems, lookupRow,
+    cases m <;> simp [step, stepC, inspects, V.isOpaque, guardQs, exec, Comp.run, Comp.bind, Comp.chks, Comp.ofExcept,
+      HQ.run, unitOk, hs, isErr, tryIterChk, assertIterable, check, V.kind, V.iterItems, lookupRow,
       Mode.code, UK.code, MJ.Gen.undefAssertIterable, MJ.Gen.undefTryIterViaAssertIterable]
   · intro m s r t hs
-    cases m <;> simp [step, modeGuard, exec, hs, isErr, isTrueChk, check, V.kind, V.isTrue, lookupRow,
+    cases m <;> simp [step, stepC, inspects, V.isOpaque, guardQs, exec, Comp.run, Comp.bind, Comp.chks, Comp.ofExcept,
+      HQ.run, unitOk, hs, isErr, isTrueChk, check, V.kind, V.isTrue, lookupRow,
       Mode.code, UK.code, MJ.Gen.undefIsTrue, St.next]
   · intro m s r u n hs hu
     cases u <;> simp [V.isUndefined, V.kind, UK.isUndefined] at hu <;>
-    cases m <;> simp [step, modeGuard, exec, hs, isErr, handleUndefined, check, V.getAttr, V.isUndefined, V.kind,
+    cases m <;> simp [step, stepC, inspects, guardQs, exec, Comp.run, Comp.bind, Comp.chks, Comp.ofExcept,
+      HQ.run, unitOk, hs, isErr, handleUndefined, check, V.getAttr, V.isUndefined, V.kind,
       UK.isUndefined, lookupRow, Mode.code, MJ.Gen.undefHandleUndefined]
-  · intro m s r u k hs hu
+  · intro m s r u k hs hu hko
+    have ho1 : V.isOpaque V.undef = false := rfl
+    have ho2 : V.isOpaque V.silent = false := rfl
     cases u <;> simp [V.isUndefined, V.kind, UK.isUndefined] at hu <;>
-    cases m <;> simp [step, modeGuard, exec, hs, isErr, handleUndefined, check, V.getItem, V.isUndefined, V.kind,
+    cases m <;> simp [step, stepC, inspects, ho1, ho2, hko, guardQs, exec, Comp.run, Comp.bind, Comp.chks, Comp.ofExcept,
+      HQ.run, unitOk, hs, isErr, handleUndefined, check, V.getItem, V.isUndefined, V.kind,
       UK.isUndefined, lookupRow, Mode.code, MJ.Gen.undefHandleUndefined]
   · intro m s r kvs n hs hn
-    cases m <;> simp [step, modeGuard, exec, hs, hn, handleUndefined, check, V.getAttr, V.isUndefined, V.kind,
+    cases m <;> simp [step, stepC, inspects, guardQs, exec, Comp.run, Comp.bind, Comp.chks, Comp.ofExcept,
+      HQ.run, unitOk, hs, hn, handleUndefined, check, V.getAttr, V.isUndefined, V.kind,
       UK.isUndefined, lookupRow, Mode.code, MJ.Gen.undefHandleUndefined]
-  · intro m s r v hs
-    simp [step, modeGuard, exec, hs, callArgs, filterGuard, testGuard, filterExec, testExec]
-  · intro m s r v o hs
-    simp [step, modeGuard, exec, hs, callArgs, filterGuard, filterExec]
+  · intro m s r v hs hv
+    have hkv := hk v hv
+    simp [step, stepC, inspects, builtinStep, callArgs, callBuiltin, hd, hu, hf, convCall, hp1, hp2, splitKwargs, isKwargsTy,
+      convArgs, convRest, convertOne, ArgTy.asks, hc.1, hc.2, hkv, handBody, testBody, filterBody, hv, hs,
+      Comp.run, Comp.bind, Comp.chks, Comp.ofExcept, V.isTrue]
+  · intro m s r v o hs hv ho
+    have hkv := hk v hv
+    have hko := hk o ho
+    have hw : wrapperForwards "Rest<T>" = true := by decide
+    simp [step, stepC, inspects, builtinStep, callArgs, callBuiltin, hf, convCall, hp2, splitKwargs, isKwargsTy,
+      convArgs, convRest, convertOne, ArgTy.asks, hw, hc.1, hc.2, hkv, hko, handBody, filterBody, hv, ho, hs,
+      Comp.run, Comp.bind, Comp.chks, Comp.ofExcept]
   · intro m s r t hs
     by_cases hc : s.formatter = 0 <;> cases m <;>
-      simp [step, stepEmit, modeGuard, exec, hs, hc, emitChk, envFormat, tryIterChk, assertIterable, isTrueChk, check, V.kind,
+      simp [step, stepC, inspects, V.isOpaque, emitC, guardQs, exec, Comp.run, Comp.bind, Comp.chks, Comp.ofExcept,
+        HQ.run, unitOk, hs, hc, emitChk, envFormat, tryIterChk, assertIterable, isTrueChk, check, V.kind,
         V.iterItems, V.isTrue, lookupRow, Mode.code, UK.code, MJ.Gen.undefVmEmitFails,
         MJ.Gen.undefAssertIterable, MJ.Gen.undefIsTrue, MJ.Gen.undefTryIterViaAssertIterable, MJ.Gen.undefEnvFormat]
 
@@ -240,15 +395,15 @@ theorem site_matrix : SiteMatrix := by
 example :
     let code : Array Instr := #[.lookup "a", .getAttr "b", .getAttr "c", .emit]
     let s : St := { ctx := [("a", .map [("x", .int 1)])] }
-    (runVm code .chainable 10 s).map St.output = .ok "" ∧
-    (runVm code .lenient 10 s).map St.output = .error .undefinedError ∧
-    (runVm code .strict 10 s).map St.output = .error .undefinedError := by
+    (runVm Ops.exec (Prog.single code) .chainable 10 s).map St.output = .ok "" ∧
+    (runVm Ops.exec (Prog.single code) .lenient 10 s).map St.output = .error .undefinedError ∧
+    (runVm Ops.exec (Prog.single code) .strict 10 s).map St.output = .error .undefinedError := by
   refine ⟨?_, ?_, ?_⟩ <;> decide
 
 /-! ## tie of the hand model to the call sites of `eval_impl` -/
 
 /-- The helper calls of each instruction arm of `eval_impl` (extracted from vm/mod.rs on every
-    run, macros expanded, every call of the file accounted for) are the ones `modeGuard` models, in
+    run, macros expanded, every call of the file accounted for) are the ones `guardQs` / `mergeKwargsC` model, in
     that order, and there are exactly the three inline mode tests that `emitChk`/`sliceChk` model
     (`strict_undefined` = Strict | SemiStrict, and Strict in `Slice`). -/
 theorem vm_sites_as_modelled :
@@ -288,9 +443,10 @@ theorem C12_holds : C12_full := ⟨mono_vm, helpers_matrix, site_matrix⟩
     step: a defined value is printed, tested, iterated) and the same run under Chainable -/
 example :
     let code : Array Instr := #[.lookup "a", .getAttr "x", .emit, .lookup "a", .jumpIfFalse 6, .emitRaw "t",
-                                .lookup "a", .pushLoop, .iterate 12, .storeLocal "k", .emitRaw "i", .jump 8, .popLoopFrame]
+                                .lookup "a", .pushLoop 1, .iterate 12, .storeLocal "k", .emitRaw "i", .jump 8, .popLoopFrame]
     let s : St := { ctx := [("a", .map [("x", .int 1)])] }
-    (runVm code .strict 50 s).map St.output = .ok "1ti" ∧ (runVm code .chainable 50 s).map St.output = .ok "1ti" := by
+    (runVm Ops.exec (Prog.single code) .strict 50 s).map St.output = .ok "1ti" ∧
+    (runVm Ops.exec (Prog.single code) .chainable 50 s).map St.output = .ok "1ti" := by
   constructor <;> decide
 
 end MJ.C12
